@@ -255,3 +255,8 @@ package types
 //@ ; the transaction executes a beacon message, directly or wrapped in a message that carries other messages (C06: "however they are wrapped")
 //@ (define-fun beaTxDeep ((t Iface)) Bool (exists ((j Int)) (and (<= 0 j) (< j (sl.len (txMsgs t))) (or (isBeaMsg (select (sl.arr (txMsgs t)) j)) (exists ((i Int)) (and (<= 0 i) (< i (sl.len (nestedMsgs (select (sl.arr (txMsgs t)) j)))) (isBeaMsg (select (sl.arr (nestedMsgs (select (sl.arr (txMsgs t)) j))) i))))))))
 //@ end
+
+// decoding of a stored value, as seen by list queries
+//@ prelude
+//@ (define-fun decodeBeacon ((b (Slice Int))) beacon.Beacon (unmarshal.beacon.Beacon b))
+//@ end
